@@ -11,7 +11,7 @@ What is modelled, function by function (mistral @ /repo):
                               recursion `for task_ex in wf_ex.task_executions: for sub in
                               get_workflow_executions(task_execution_id=task_ex.id): if not
                               is_completed(sub.state): stop_workflow(sub, ...)` IN THE SAME
-                              TRANSACTION                                          -> `reached`, `cancelTx`
+                              TRANSACTION                                          -> `below`, `cancelTx`
   * engine/workflows.py       Workflow.stop / _succeed_workflow / _fail_workflow / _cancel_workflow /
                               set_state (table + CAS) / check_and_complete /
                               _send_result_to_parent_workflow (a post-commit operation that sends the
@@ -80,6 +80,7 @@ structure Exec where
   accepted : Bool
   sent : Nat                   -- ghost: how many times `_send_result` was registered for this execution
   got : Nat                    -- ghost: how many result messages of this execution the engine processed
+  backlog : List String        -- runtime_context['backlog_commands']: commands saved while PAUSED
   deriving Repr
 
 structure Task where
@@ -95,8 +96,8 @@ structure Task where
 
 /-- something handed to another thread / process / point in time -/
 inductive Item where
-  | postStartTask (t : Nat)              -- post-commit op: send RPC start_task
-  | rpcStartTask (t : Nat)
+  | postStartTask (t : Nat) (first : Bool)   -- post-commit op: send RPC start_task (first_run)
+  | rpcStartTask (t : Nat) (first : Bool)
   | postRunAction (t : Nat)              -- post-commit op: hand the action to an executor
   | runAction (t : Nat)                  -- at the executor
   | rpcResult (t : Nat) (ok : Bool)      -- RPC on_action_complete of an ordinary action
@@ -106,6 +107,7 @@ inductive Item where
   | postSendResult (c : Nat)             -- post-commit op `_send_result` of child execution c
   | rpcChildResult (c : Nat)             -- RPC on_action_complete(c, wf_action=True)
   | jobChildComplete (c : Nat)           -- scheduler job `_scheduled_on_action_complete` (with-items parent)
+  | jobChildUpdate (c : Nat)             -- scheduler job `_scheduled_on_action_update` (with-items parent)
   deriving Repr, DecidableEq
 
 structure World where
@@ -119,6 +121,10 @@ inductive Event where
   | deliver (it : Item)
   | execute (t : Nat) (ok : Bool)                -- the executor runs the action of task t and reports
   | stop (wf : Nat) (s : St) (msg : String)      -- engine.stop_workflow(wf, s, msg): force-fail / succeed / cancel
+  | lose (it : Item)                             -- a post-commit operation fails (the exception is swallowed
+                                                 -- by post_tx_queue): what it would have sent is lost
+  | pause (wf : Nat)                             -- engine.pause_workflow(wf)
+  | resume (wf : Nat)                            -- engine.resume_workflow(wf)
   deriving Repr
 
 def init : World := { execs := [], tasks := [], pending := [] }
@@ -168,13 +174,14 @@ def newTask (wf : Nat) (n : String) : Task :=
   { wf := wf, name := n, state := .IDLE, processed := false, hasNext := false, errorHandled := false,
     wi := none, ran := 0 }
 
-/-- one RunTask command: nothing once the workflow is completed; else the row (IDLE) and the post-commit
-    `_start_task` -/
+/-- one RunTask command: nothing once the workflow is completed; saved to the backlog while it is PAUSED;
+    else the row (IDLE) and the post-commit `_start_task` -/
 def dispatchOne (w : World) (wf : Nat) (n : String) : World :=
   match w.execs[wf]? with
   | some e =>
     if isCompleted e.state then w
-    else { w with tasks := w.tasks ++ [newTask wf n], pending := w.pending ++ [.postStartTask w.tasks.length] }
+    else if e.state == .PAUSED then { w with execs := w.execs.set wf { e with backlog := e.backlog ++ [n] } }
+    else { w with tasks := w.tasks ++ [newTask wf n], pending := w.pending ++ [.postStartTask w.tasks.length true] }
   | none => w
 
 /-- `dispatch_workflow_commands`: `_rearrange_commands` reverses the commands (see the header) -/
@@ -205,37 +212,31 @@ def checkAndComplete (w : World) (i : Nat) : World :=
       else finish w i e .ERROR .auto (.result .auto)
 
 /-- `Workflow.stop(state, msg)`; `none` = an exception leaves the entry point (invalid transition:
-    WorkflowException) and the whole transaction is rolled back.  `_succeed_workflow` has NO
-    is-completed guard: SUCCESS -> SUCCESS is a valid (identity) transition, the state_info is
-    overwritten and the result is sent to the parent again. -/
-def stopOne (w : World) (i : Nat) (s : St) (msg : String) : Option World :=
+    WorkflowException) and the whole transaction is rolled back.  All three of `_succeed_workflow`,
+    `_fail_workflow`, `_cancel_workflow` ignore an execution that is already completed
+    (`_succeed_workflow` since repo patch 15). -/
+def stopOne (w : World) (i : Nat) (s : St) (msg : Info) : Option World :=
   match w.execs[i]? with
   | none => none                               -- DBEntityNotFoundError
   | some e =>
     match s with
     | .SUCCESS =>
-      if isValidTransition e.state .SUCCESS == some true then some (finish w i e .SUCCESS (.op msg) .data) else none
+      if isCompleted e.state then some w
+      else if isValidTransition e.state .SUCCESS == some true
+        then some (finish w i e .SUCCESS msg .data) else none
     | .ERROR =>
       if isCompleted e.state then some w
       else if isValidTransition e.state .ERROR == some true
-        then some (finish w i e .ERROR (.op msg) (.result (.op msg))) else none
+        then some (finish w i e .ERROR msg (.result msg)) else none
     | .CANCELLED =>
       if isCompleted e.state then some w
       else if isValidTransition e.state .CANCELLED == some true
-        then some (finish w i e .CANCELLED (.op msg) (.result (.op msg))) else none
+        then some (finish w i e .CANCELLED msg (.result msg)) else none
     | _ => some w
 
-/-- which executions the recursion of `stop_workflow(a, CANCELLED)` visits: `a` itself, and every
-    execution that is NOT completed and whose parent execution is visited (the loop skips completed
-    children and therefore everything below them).  Fuel: the depth of the tree. -/
-def reached (w : World) (a : Nat) : Nat → Nat → Bool
-  | 0, _ => false
-  | f + 1, x =>
-    x == a || (match w.execs[x]?, parentWf w x with
-      | some e, some p => !isCompleted e.state && reached w a f p
-      | _, _ => false)
-
-/-- `x` is `a` or a descendant of `a` (whatever the states on the path) -/
+/-- `x` is `a` or a descendant of `a` (whatever the states on the path): what the recursion of
+    `stop_workflow(a, CANCELLED)` visits (since repo patch 14 the loop over the sub-workflows of every task
+    execution descends into completed children too).  Fuel: the depth of the tree. -/
 def below (w : World) (a : Nat) : Nat → Nat → Bool
   | 0, _ => false
   | f + 1, x =>
@@ -251,11 +252,10 @@ def cancelled (msg : String) (e : Exec) : Exec :=
 
 /-- is execution x (row e) cancelled by `stop_workflow(a, CANCELLED)`? -/
 def hit (w : World) (a : Nat) (x : Nat) (e : Exec) : Bool :=
-  reached w a w.execs.length x && !isCompleted e.state
+  below w a w.execs.length x && !isCompleted e.state
 
-/-- the whole transaction of `stop_workflow(a, CANCELLED, msg)`; the visited set is computed on the
-    rows as they were when the transaction began (each execution is visited at most once, and the loop
-    tests a child's state before that child is touched) -/
+/-- the whole transaction of `stop_workflow(a, CANCELLED, msg)`: every execution at or below `a` that is not
+    completed is cancelled (each execution is visited once; `_cancel_workflow` ignores completed ones) -/
 def cancelTx (w : World) (a : Nat) (msg : String) : World :=
   { w with
     execs := w.execs.mapIdx fun x e => if hit w a x e then cancelled msg e else e,
@@ -266,7 +266,7 @@ def cancelTx (w : World) (a : Nat) (msg : String) : World :=
 
 def newExec (d : Nat) (parent : Option Nat) (index : Nat) : Exec :=
   { defn := d, parent := parent, index := index, state := .RUNNING, info := .none, out := .empty,
-    accepted := false, sent := 0, got := 0 }
+    accepted := false, sent := 0, got := 0, backlog := [] }
 
 /-- `Workflow.start` of a new execution (state RUNNING, start tasks dispatched); `check` = the
     completion check `DefaultEngine.start_workflow` runs in the same transaction (not run by the
@@ -277,7 +277,14 @@ def startWf (c : Cfg) (w : World) (d : Nat) (parent : Option Nat) (index : Nat) 
   let w2 := dispatch w1 i (startTasks (defOf c d))
   if check then checkAndComplete w2 i else w2
 
-/-- `WorkflowAction.schedule` for item `idx` of task t -/
+/-- the state of a sub-workflow task whose child is refused because its workflow execution (state s) is
+    completed (`Task.get_state_for_completed_workflow`, repo patch 19): cancelled with a CANCELLED workflow,
+    failed otherwise -/
+def refusedState (s : St) : St := if s == .CANCELLED then .CANCELLED else .ERROR
+
+/-- `WorkflowAction.schedule` for item `idx` of task t (called when the parent workflow execution is not
+    completed; for a completed one `schedule` raises WorkflowException since repo patch 16 and the caller
+    completes the task with `refusedState`) -/
 def startSub (c : Cfg) (w : World) (t : Nat) (d : Nat) (idx : Nat) : World :=
   if c.viaRpc then { w with pending := w.pending ++ [.postStartSub t idx] }
   else startWf c w d (some t) idx false
@@ -301,11 +308,20 @@ def completeTask (c : Cfg) (w : World) (t : Nat) (s : St) : World :=
                            pending := if nt.isEmpty then w.pending ++ [.postCheck tk.wf] else w.pending }
         dispatch w1 tk.wf nt
 
-/-- `WithItemsTask._get_next_indexes` on the child rows (no unaccepted completed rows without rerun):
-    the indexes from the number of accepted / running / idle children up to count, cut to capacity -/
+/-- `WithItemsTask._get_next_indexes` on the child rows: the indexes of completed children whose result does
+    not count any more (`accepted` reset by `_reset_actions`) and that are not taken by an accepted / running /
+    idle child, followed by the not yet taken indexes above them; if there is none, the indexes from the number of
+    accepted / running / idle children up to count; cut to capacity -/
 def wiNextIndexes (w : World) (t : Nat) (count : Nat) (cap : Option Nat) : List Nat :=
-  let taken := (childrenOfTask w t).filter fun p => p.2.accepted || isRunning p.2.state || isIdle p.2.state
-  let l := (List.range count).drop taken.length
+  let ch := childrenOfTask w t
+  let takenRows := ch.filter fun p => p.2.accepted || isRunning p.2.state || isIdle p.2.state
+  let taken := takenRows.map (·.2.index)
+  let unacc := (ch.filter fun p => !p.2.accepted && isCompleted p.2.state).map (·.2.index)
+  let cands := (List.range count).filter fun i => unacc.contains i && !taken.contains i
+  let cands := cands ++ (unacc.filter fun i => i ≥ count && !taken.contains i).eraseDups
+  let l := match cands.getLast? with
+    | some m => cands ++ (if m + 1 < count then (List.range count).filter fun i => i > m && !taken.contains i else [])
+    | none => (List.range count).drop takenRows.length
   match cap with
   | some k => l.take k
   | none => l
@@ -315,13 +331,22 @@ def wiSchedule (c : Cfg) (w : World) (t : Nat) (d : Nat) (count : Nat) (cap : Op
   let idxs := wiNextIndexes w t count cap
   if idxs.isEmpty then completeTask c w t .SUCCESS
   else
-    let w1 := idxs.foldl (fun w i => startSub c w t d i) w
-    match w1.tasks[t]? with
-    | some tk => { w1 with tasks := w1.tasks.set t { tk with wi := some (count, cap.map (· - idxs.length)) } }
-    | none => w1
+    match w.tasks[t]? with
+    | none => w
+    | some tk0 =>
+      match w.execs[tk0.wf]? with
+      | none => w
+      | some e =>
+        -- WorkflowAction.schedule raises for a completed parent workflow: the task completes with ERROR
+        if isCompleted e.state then completeTask c w t (refusedState e.state)
+        else
+          let w1 := idxs.foldl (fun w i => startSub c w t d i) w
+          match w1.tasks[t]? with
+          | some tk => { w1 with tasks := w1.tasks.set t { tk with wi := some (count, cap.map (· - idxs.length)) } }
+          | none => w1
 
 /-- `task_handler.run_task(first_run=True)` -> `RegularTask._run_new`: only an IDLE task starts.  The
-    state of the WORKFLOW is not consulted. -/
+    state of the WORKFLOW is not consulted, except that no sub-workflow is started in a completed one. -/
 def runTask (c : Cfg) (w : World) (t : Nat) : World :=
   match w.tasks[t]? with
   | none => w
@@ -334,7 +359,8 @@ def runTask (c : Cfg) (w : World) (t : Nat) : World :=
       match kindOf c e.defn tk.name with
       | none => w1
       | some .action => { w1 with pending := w1.pending ++ [.postRunAction t] }
-      | some (.subwf d none _) => startSub c w1 t d 0
+      | some (.subwf d none _) =>
+        if isCompleted e.state then completeTask c w1 t (refusedState e.state) else startSub c w1 t d 0
       | some (.subwf d (some n) conc) =>
         let w2 := { w with tasks := w.tasks.set t { tk with state := .RUNNING, wi := some (n, conc) } }
         wiSchedule c w2 t d n conc
@@ -408,6 +434,199 @@ def childResult (c : Cfg) (w : World) (x : Nat) : World :=
           | some (.subwf _ (some _) _) => { w1 with pending := w1.pending ++ [.jobChildComplete x] }
           | _ => completeTask c w1 t e.state
 
+/-! ## pause / resume and their propagation through the tree -/
+
+/-- the task has an action in progress (registered for an executor, at an executor, result on its way) or a
+    child execution that is not completed: `any(not is_completed(e.state) for e in task_ex.executions)` -/
+def hasLive (w : World) (t : Nat) : Bool :=
+  (w.pending.any fun i => match i with
+    | .postRunAction t' => t' == t
+    | .runAction t' => t' == t
+    | .rpcResult t' _ => t' == t
+    | _ => false) ||
+  (childrenOfTask w t).any fun p => !isCompleted p.2.state
+
+/-- `RegularTask._reset_actions` (no reset flag): the results of the failed / cancelled children of the task
+    do not count any more -/
+def resetKids (w : World) (t : Nat) : World :=
+  { w with execs := w.execs.mapIdx fun _ e =>
+      if e.parent == some t && e.accepted && (e.state == .ERROR || e.state == .CANCELLED)
+      then { e with accepted := false } else e }
+
+/-- `task_handler.run_task(first_run=False)` -> `RegularTask._run_existing` (a RunExistingTask command: an
+    IDLE task found by `continue_workflow` on resume) -/
+def runExisting (c : Cfg) (w : World) (t : Nat) : World :=
+  match w.tasks[t]? with
+  | none => w
+  | some tk =>
+    if tk.state == .SUCCESS then w                       -- MistralError: the transaction is rolled back
+    else if tk.state == .RUNNING && hasLive w t then w
+    else
+    match w.execs[tk.wf]? with
+    | none => w
+    | some e =>
+      let w0 := resetKids w t
+      let w1 := { w0 with tasks := w0.tasks.set t { tk with state := .RUNNING, processed := false } }
+      match kindOf c e.defn tk.name with
+      | none => w1
+      | some .action => { w1 with pending := w1.pending ++ [.postRunAction t] }
+      | some (.subwf d none _) =>
+        if isCompleted e.state then completeTask c w1 t (refusedState e.state) else startSub c w1 t d 0
+      | some (.subwf d (some n) conc) =>
+        let wi := tk.wi.getD (n, conc)
+        let w2 := { w0 with tasks := w0.tasks.set t { tk with state := .RUNNING, processed := false, wi := some wi } }
+        wiSchedule c w2 t d wi.1 wi.2
+
+/-- `Task.update(state)` (an external state change of the task's sub-workflow) -/
+def taskUpdate (w : World) (t : Nat) (s : St) : World :=
+  match w.tasks[t]? with
+  | none => w
+  | some tk =>
+    if isCompleted tk.state then w
+    else if isValidTransition tk.state s != some true then w
+    else if s == .RUNNING && (childrenOfTask w t).any (fun p => p.2.state == .PAUSED) then w
+    else
+      -- a bare `set_state` (no completion logic); for a completed state (a stale update job that finds its
+      -- child finished) the completion check of the workflow is registered
+      { w with tasks := w.tasks.set t { tk with state := s },
+               pending := if isCompleted s && !tk.hasNext then w.pending ++ [.postCheck tk.wf] else w.pending }
+
+/-- `Workflow.set_state` into a state that is not completed (PAUSED / RUNNING): state_info is reset,
+    accepted = is_completed(state) = False -/
+def setState (w : World) (x : Nat) (e : Exec) (s : St) : World :=
+  { w with execs := w.execs.set x { e with state := s, info := .none, accepted := false } }
+
+/-- the sub-workflow executions of the tasks of execution x (task order, then creation order) -/
+def kidsOf (w : World) (x : Nat) : List Nat :=
+  (w.tasks.zipIdx.filter fun p => p.1.wf == x).flatMap fun p => (childrenOfTask w p.2).map (·.1)
+
+def isWithItemsTask (c : Cfg) (w : World) (t : Nat) : Bool :=
+  match w.tasks[t]? with
+  | some tk => (match w.execs[tk.wf]? with
+    | some e => (match kindOf c e.defn tk.name with
+      | some (.subwf _ (some _) _) => true
+      | _ => false)
+    | none => false)
+  | none => false
+
+/-- `Workflow.resume` after the state change: `continue_workflow()` (RunExistingTask for IDLE tasks, the
+    next commands of completed tasks that are not processed yet), `_continue_workflow` (those tasks become
+    processed; the backlog and the commands are dispatched, or the completion check runs) -/
+def resumeSelf (c : Cfg) (w : World) (x : Nat) : World :=
+  match w.execs[x]? with
+  | none => w
+  | some e =>
+    let ts := w.tasks.zipIdx.filter fun p => p.1.wf == x
+    let idle := (ts.filter fun p => p.1.state == .IDLE).map (·.2)
+    let cmds := (ts.filter fun p => isCompleted p.1.state && !p.1.processed).flatMap fun p =>
+      nextOf c e.defn p.1.name p.1.state
+    let w1 := { w with tasks := w.tasks.map fun tk =>
+                  if tk.wf == x && isCompleted tk.state && !tk.processed then { tk with processed := true } else tk }
+    if idle.isEmpty && cmds.isEmpty && e.backlog.isEmpty then checkAndComplete w1 x
+    else
+      let w2 := dispatch { w1 with execs := w1.execs.set x { e with backlog := [] } } x e.backlog
+      let w3 := { w2 with pending := w2.pending ++ idle.map fun t => Item.postStartTask t false }
+      dispatch w3 x cmds
+
+/-- `task_handler.force_fail_task` -/
+def forceFail (w : World) (t : Nat) : World × Bool :=
+  match w.tasks[t]? with
+  | none => (w, false)
+  | some tk =>
+    let w1 := { w with tasks := w.tasks.set t { tk with state := .ERROR } }
+    match stopOne w1 tk.wf .ERROR .auto with
+    | some w2 => (w2, false)
+    | none => (w1, true)
+
+inductive Mode where
+  | pause      -- workflow_handler.pause_workflow(x)
+  | resume     -- workflow_handler.resume_workflow(x)
+  | update     -- task_handler._on_action_update(x): x changed state, its parent task / workflow follow
+  deriving Repr, DecidableEq
+
+/-- pause_workflow / resume_workflow / _on_action_update call each other inside ONE transaction: the
+    sub-workflows first, then the workflow itself, then (`schedule_on_action_update`) the parent task and the
+    parent workflow — synchronously for a plain parent task, through a scheduler job for a with-items one.
+    Result: the world and "an exception left this call" (an invalid transition in `Workflow.set_state`;
+    inside `_on_action_update` it is caught and the parent task is force-failed).  Fuel: nesting depth. -/
+def prop (c : Cfg) : Nat → Mode → World → Nat → World × Bool
+  | 0, _, w, _ => (w, false)
+  | f + 1, .pause, w, x =>
+    let r := (kidsOf w x).foldl (fun (acc : World × Bool) k =>
+      if acc.2 then acc else
+      match acc.1.execs[k]? with
+      | some ek => if isCompleted ek.state then acc else prop c f .pause acc.1 k
+      | none => acc) (w, false)
+    if r.2 then r else
+    match r.1.execs[x]? with
+    | none => r
+    | some e =>
+      if isPaused e.state then r
+      else if isValidTransition e.state .PAUSED == some true then
+        let w1 := setState r.1 x e .PAUSED
+        match e.parent with
+        | none => (w1, false)
+        | some t =>
+          if isWithItemsTask c w1 t then ({ w1 with pending := w1.pending ++ [.jobChildUpdate x] }, false)
+          else prop c f .update w1 x
+      else (r.1, true)
+  | f + 1, .resume, w, x =>
+    match w.execs[x]? with
+    | none => (w, false)
+    | some e0 =>
+      if !isPausedOrIdle e0.state then (w, false) else
+      let r := (kidsOf w x).foldl (fun (acc : World × Bool) k =>
+        if acc.2 then acc else
+        match acc.1.execs[k]? with
+        | some ek => if isCompleted ek.state then acc else prop c f .resume acc.1 k
+        | none => acc) (w, false)
+      if r.2 then r else
+      match r.1.execs[x]? with
+      | none => r
+      | some e =>
+        -- repo patch 20: a nested call (a resumed sub-workflow resumes its parent) may have resumed, even
+        -- completed, this execution already
+        if !isPausedOrIdle e.state then r
+        else if isValidTransition e.state .RUNNING == some true then
+          let w1 := resumeSelf c (setState r.1 x e .RUNNING) x
+          match e.parent with
+          | none => (w1, false)
+          | some t =>
+            if isWithItemsTask c w1 t then ({ w1 with pending := w1.pending ++ [.jobChildUpdate x] }, false)
+            else prop c f .update w1 x
+        else (r.1, true)
+  | f + 1, .update, w, x =>
+    match w.execs[x]? with
+    | none => (w, false)
+    | some e =>
+      match e.parent with
+      | none => (w, false)
+      | some t =>
+        match w.tasks[t]? with
+        | none => (w, false)
+        | some tk =>
+          let w1 := taskUpdate w t e.state
+          if isPaused e.state then
+            let r := prop c f .pause w1 tk.wf
+            if r.2 then forceFail r.1 t else r
+          else if isRunning e.state then
+            -- "if any subworkflow of the parent workflow is paused, keep the parent paused"
+            if (w1.tasks.any fun u => u.wf == tk.wf && isPaused u.state) then (w1, false)
+            else
+              let r := prop c f .resume w1 tk.wf
+              if r.2 then forceFail r.1 t else r
+          else (w1, false)
+
+def fuelOf (w : World) : Nat := 4 * w.execs.length + 8
+
+/-- the transaction raised and is rolled back: rows and post-commit operations are gone, but the scheduler
+    jobs it scheduled stay in the scheduler's memory (`DefaultScheduler.schedule` registers the job in memory
+    before the transaction commits) and will run -/
+def rolledBack (w w' : World) : World :=
+  { w with pending := w.pending ++ (w'.pending.drop w.pending.length).filter fun i => match i with
+      | .jobChildUpdate _ => true
+      | _ => false }
+
 /-! ## the transition system -/
 
 def step (c : Cfg) (w : World) : Event → World
@@ -415,7 +634,14 @@ def step (c : Cfg) (w : World) : Event → World
   | .stop a s msg =>
     match s with
     | .CANCELLED => if a < w.execs.length then cancelTx w a msg else w
-    | _ => (stopOne w a s msg).getD w
+    | _ => (stopOne w a s (.op msg)).getD w
+  | .lose it => if !w.pending.contains it then w else { w with pending := removeFirst w.pending it }
+  | .pause a =>
+    let r := prop c (fuelOf w) .pause w a
+    if r.2 then rolledBack w r.1 else r.1
+  | .resume a =>
+    let r := prop c (fuelOf w) .resume w a
+    if r.2 then rolledBack w r.1 else r.1
   | .execute t ok =>
     if !w.pending.contains (.runAction t) then w else
     { w with pending := removeFirst w.pending (.runAction t) ++ [.rpcResult t ok] }
@@ -423,8 +649,8 @@ def step (c : Cfg) (w : World) : Event → World
     if !w.pending.contains it then w else
     let w := { w with pending := removeFirst w.pending it }
     match it with
-    | .postStartTask t => { w with pending := w.pending ++ [.rpcStartTask t] }
-    | .rpcStartTask t => runTask c w t
+    | .postStartTask t f => { w with pending := w.pending ++ [.rpcStartTask t f] }
+    | .rpcStartTask t f => if f then runTask c w t else runExisting c w t
     | .postRunAction t => { w with pending := w.pending ++ [.runAction t] }
     | .runAction _ => w                         -- executors answer through `execute`
     | .rpcResult t ok => completeTask c w t (if ok then .SUCCESS else .ERROR)
@@ -436,7 +662,10 @@ def step (c : Cfg) (w : World) : Event → World
         match w.execs[tk.wf]? with
         | some e =>
           match kindOf c e.defn tk.name with
-          | some (.subwf d _ _) => startWf c w d (some t) i true
+          | some (.subwf d _ _) =>
+            -- DefaultEngine.start_workflow (repo patch 16): a child of a completed workflow execution is
+            -- not started, its parent task is completed with ERROR
+            if isCompleted e.state then completeTask c w t (refusedState e.state) else startWf c w d (some t) i true
           | _ => w
         | none => w
       | none => w
@@ -448,6 +677,7 @@ def step (c : Cfg) (w : World) : Event → World
         | some t => wiOnComplete c w t
         | none => w
       | none => w
+    | .jobChildUpdate x => (prop c (fuelOf w) .update w x).1
 
 def run (c : Cfg) (evs : List Event) : World := evs.foldl (step c) init
 
